@@ -126,4 +126,106 @@ PROPS = {
                 "then opened, reader storms during 300 trial-to-wallet migrations; distinct by rendered term",
         "trusted": [],
     },
+    "C01": {
+        "harness": "c01",
+        "imports": ["Base", "Nonce", "Store", "Check12", "Pool", "CheckPool"],
+        "case_type": "pool_case",
+        "check": "pool_check",
+        "diag": "pool_diag",
+        "theories": ["theories/Base.v", "theories/Nonce.v", "theories/Store.v", "theories/StoreProofs.v", "theories/Pool.v", "theories/PoolProofs.v", "theories/BalanceProofs.v", "theories/Conc.v", "theories/ConcProofs.v"],
+        "check_theories": ["theories/Check12.v", "theories/CheckPool.v"],
+        "level_text": "Coq theorems over the executable pool model (connect, keep-alive with the balance manager, account "
+                      "linking, deposits, withdrawals, refused requests) composed from contract-store steps: every "
+                      "operation and every history leaves the ledger total unchanged except for the credit a successful "
+                      "withdrawal settles, for every price/interval/minimum configuration (induction over histories); "
+                      "and for every interleaving of the atomic store actions of any number of concurrent requests with "
+                      "arbitrary clock values the total at quiescence is the initial total minus the settled credit "
+                      "(induction over schedules with a per-thread ledger ghost). Tied to the code by in-kernel "
+                      "evaluation of the model on pool histories executed by the real VipnodePool / payPerInterval / "
+                      "PaymentService on both drivers (outcome, peer sets and Stats().TotalCredit after every step), "
+                      "by fault injection at the BalanceStore interface and by free-running concurrent keep-alives.",
+        "level_note": "Trusted: Coq kernel; each store call is atomic (memory: mutex, LockShape fact; badger: one "
+                      "transaction retried on conflict, TxnShape fact + badger's commit); the deposit proxy is harness "
+                      "code standing for the contract store; signatures are real (go-ethereum) but not modelled here.",
+        "technique": "Coq proof (induction over histories and over schedules) + vm_compute correspondence on both drivers "
+                     "+ fault injection + concurrent runs",
+        "rule": "pool histories of 15-44 operations (3 hosts, 3 clients, 3 wallets; connect/reconnect, keep-alives with "
+                "elapsed 0..2^62 ns and prices 1..10^40, account linking, deposits, withdrawals with failing "
+                "settlements, time advances), configurations with minimum/fee/withdraw-minimum on/off, both drivers; "
+                "4 fault-injection runs; 6 concurrent runs of 8 clients x 12 keep-alives; distinct by rendered term",
+        "trusted": [],
+    },
+    "C02": {
+        "harness": "c02",
+        "imports": ["Base", "Nonce", "Store", "Check12", "Pool", "CheckPool"],
+        "case_type": "pool_case",
+        "check": "pool_check",
+        "diag": "pool_diag",
+        "theories": ["theories/Base.v", "theories/Nonce.v", "theories/Store.v", "theories/StoreProofs.v", "theories/Pool.v", "theories/PoolProofs.v", "theories/BalanceProofs.v", "theories/Conc.v", "theories/ConcProofs.v"],
+        "check_theories": ["theories/Check12.v", "theories/CheckPool.v"],
+        "level_text": "Coq theorems over the balance-manager model: a billing keep-alive performs exactly +unit per "
+                      "active peer and -(k x unit) for the client with unit = floor(sat64(elapsed) x price / interval) "
+                      "over unbounded integers; hosts, zero unit charge and misconfiguration move nothing; failures are "
+                      "all-or-nothing; slicing a span into k keep-alives lowers the per-peer total by at most k-1 units "
+                      "and never raises it; the billed time of a run is the span plus the gaps between the two clock "
+                      "reads of each keep-alive (so 'no time charged twice' holds iff the reads coincide: refuted for "
+                      "the code as it is, known finding D19). Tied to the code by in-kernel evaluation on keep-alive "
+                      "histories of the real pool with the balance clock set by the verif hook, both drivers.",
+        "level_note": "Trusted: Coq kernel; math/big Div by a positive divisor is floor division; time.Sub saturation as "
+                      "modelled; the clock hook (VerifSetClock) and the read-back LastSeen give the exact clock values.",
+        "technique": "Coq proof (trace characterisation, arithmetic bounds) + vm_compute correspondence on both drivers",
+        "rule": "keep-alive histories (1-3 hosts, 1-3 clients, shared wallets, 0..n peers incl. non-hosts and the "
+                "client itself, elapsed 0 / 1 ms / 30 s / 59.999999999 s / 60 s / 61 s / 5 min / 2^62 ns, prices 1 .. "
+                "10^40 incl. 2^64+1, intervals 1 s / 1 min / 1 h), both drivers; 6 real-clock runs of 9 keep-alives; "
+                "distinct by rendered term",
+        "trusted": [],
+    },
+    "C03": {
+        "harness": "c03",
+        "imports": ["Base", "Nonce", "Store", "Check12", "Pool", "CheckPool"],
+        "case_type": "pool_case",
+        "check": "pool_check",
+        "diag": "pool_diag",
+        "theories": ["theories/Base.v", "theories/Nonce.v", "theories/Store.v", "theories/StoreProofs.v", "theories/Pool.v", "theories/PoolProofs.v", "theories/BalanceProofs.v", "theories/Conc.v", "theories/ConcProofs.v"],
+        "check_theories": ["theories/Check12.v", "theories/CheckPool.v"],
+        "level_text": "Coq theorems: at connect a light client is refused iff deposit + credit < minimum and the error "
+                      "carries that balance, hosts and an unset minimum never; at a billing keep-alive the client is cut "
+                      "off iff its spendable balance after that keep-alive's charge is below the minimum, the error "
+                      "reports that balance, and the hosts asked to disconnect it are exactly its active peers with a "
+                      "live connection. Tied to the code by in-kernel evaluation on histories that drive a balance "
+                      "across the threshold (min-2 .. min+2) at connect and at keep-alives, both drivers, with the "
+                      "vipnode_disconnect calls recorded by fake hosts.",
+        "level_note": "Trusted: Coq kernel; the deposit proxy (harness) standing for the contract store; fake hosts over "
+                      "net.Pipe Remotes.",
+        "technique": "Coq proof (case analysis on the balance-manager model) + vm_compute correspondence on both drivers",
+        "rule": "threshold histories: minimum in {unset,-5,0,1,1000,10^18}, deposit chosen so that the balance after a "
+                "charge of k x 1..50 lands on min-2..min+2, linked and unlinked clients, hosts with and without a live "
+                "connection; distinct by rendered term",
+        "trusted": [],
+    },
+    "C07": {
+        "harness": "c07",
+        "imports": ["Base", "Nonce", "Store", "Check12", "Pool", "CheckPool"],
+        "case_type": "pool_case",
+        "check": "pool_check",
+        "diag": "pool_diag",
+        "theories": ["theories/Base.v", "theories/Nonce.v", "theories/Store.v", "theories/StoreProofs.v", "theories/Pool.v", "theories/PoolProofs.v", "theories/BalanceProofs.v", "theories/Conc.v", "theories/ConcProofs.v"],
+        "check_theories": ["theories/Check12.v", "theories/CheckPool.v"],
+        "level_text": "Coq theorems over the payment-service model: a withdrawal is executed iff settlement is enabled, "
+                      "deposit + credit meets the minimum and the settlement succeeds; it pays exactly that balance minus "
+                      "the fee; it leaves deposit + credit = 0; an immediate repeat pays none of the earnings again "
+                      "(refused under a positive minimum); failed or refused requests change nothing; each success lowers "
+                      "what the pool owes by paid + fee; racing withdrawals interleaved with any other requests remove "
+                      "from the ledger exactly what each settled. Tied to the code by in-kernel evaluation on "
+                      "accrual/withdrawal histories of the real PaymentService (settle handler recording amounts, "
+                      "failing on scripted attempts), both drivers, and by racing withdrawals of one wallet.",
+        "level_note": "Trusted: Coq kernel; the settle handler and deposit proxy are harness code standing for the "
+                      "contract (settlement sets the on-chain balance to the new balance 0); withdrawals are serialized "
+                      "by the service mutex (Go sync.Mutex).",
+        "technique": "Coq proof (specification lemmas, history/schedule induction) + vm_compute correspondence + races",
+        "rule": "accrual and withdrawal histories (6-17 steps; accruals of 1..20000 around fee 2500 / minimum 5000 / "
+                "minimum 100 / fee 10, deposits, settlement failing on a quarter of attempts, immediate repeats, "
+                "settlement disabled in a tenth), both drivers; every tenth case 2-6 racing withdrawals of one wallet",
+        "trusted": [],
+    },
 }
